@@ -90,3 +90,36 @@ class decode_line_program:
         1: dict(invariant=["self.stream.pos == useq_off($B, $o + 1, $k)"]),
     }
     may_raise = ["ELFParseError", "OverflowError", "DWARFError"]
+
+
+# ---------------------------------------------------------------- which program, parsed with whose parameters
+from contracts._dwarf_shapes import CUFull, DInfoT
+from specs.die import attr_has, attr_value
+
+LPRet = Obj('LineProgram', structs=StructsT, header_offset=Nat)
+
+
+@contract("elftools/dwarf/dwarfinfo.py", "DWARFInfo._parse_line_program_at_offset", props=["C05"])
+class parse_line_program_at_offset:
+    """(assumed at the call site below; the header/extent handling itself is covered by the bounded
+    differential) the line program whose header starts at the offset, read with the parameters
+    (format, address size, byte order) of the structs object passed"""
+    mode = 'assume'
+    returns = LPRet
+    ensures = ["result.header_offset == offset", "result.structs.dwarf_format == structs.dwarf_format",
+               "result.structs.address_size == structs.address_size", "result.structs.little_endian == structs.little_endian"]
+    may_raise = ["ELFParseError", "DWARFError", "OverflowError", "KeyError"]
+
+
+@contract("elftools/dwarf/dwarfinfo.py", "DWARFInfo.line_program_for_CU", props=["C05"])
+class line_program_for_cu:
+    """the program DW_AT_stmt_list of the unit's root entry designates, read with the unit's own format
+    and address size (6.2.4: offsets in the header have the size of the unit's format); no attribute, no program"""
+    params = dict(self=SameAs('CU.dwarfinfo'), CU=CUFull)
+    modifies = ["*rep"]
+    returns = Opt(LPRet)
+    ensures = ["(result is None) == (not attr_has(CU, CU.cu_die_offset, 'DW_AT_stmt_list'))",
+               "result is None or (result.header_offset == attr_value(CU, CU.cu_die_offset, 'DW_AT_stmt_list')"
+               " and result.structs.dwarf_format == CU.structs.dwarf_format and result.structs.address_size == CU.structs.address_size"
+               " and result.structs.little_endian == CU.structs.little_endian)"]
+    may_raise = ["ELFParseError", "DWARFError", "OverflowError", "KeyError"]
